@@ -3,6 +3,10 @@
 
   build       {"op":"build","ids":[..]}                      -> tree rendering, originalIds (both forms), flatMemberIds,
                                                               WellCounted, spec expansion
+              optional "fix":true = `template_from_ids` in a process that holds in-stream extra entries
+              (`TableDef.templateFromIds T true`: `_fix_ncep_descriptors` applied to the built tree; tree / orig / origq /
+              flat are those of the repaired tree, "fixid" tells whether the repair left the tree unchanged);
+              optional "leaves":true adds the Table B positions [id, kind, scale, ref, nbits] of the tree
   expand-row  {"op":"expand-row","id":n}                     -> flat ids of the built sequence, spec expansion, leaves
   expand-all  {"op":"expand-all"}                            -> per loaded Table D id: [id, status, n, digest(flat), spec = flat, digest(leaves)]
   tables-wf   {"op":"tables-wf"}                             -> decidable hypotheses of the C14 theorems on the loaded group
@@ -11,6 +15,7 @@
 import BufrModel.Basic.Template
 import BufrModel.Spec.FlatExpand
 import BufrModel.Drv.State
+import BufrModel.Msg.TableDef
 open Lean
 namespace Bufr.Drv
 
@@ -50,12 +55,17 @@ def opBuild (st : DrvState) (j : Json) : J (DrvState × Json) := do
   let T := st.tables
   let wc := Spec.WellCounted ids
   let spec := Spec.expand T defaultDepth ids
-  let out := match build T ids with
+  let fix ← asBool (fldD j "fix" (Json.bool false))
+  let wantLeaves ← asBool (fldD j "leaves" (Json.bool false))
+  let out := match TableDef.templateFromIds T fix ids with
     | .error e => jobj [("err", jstr (errTag e)), ("wc", Json.bool wc), ("spec", optNats spec)]
-    | .ok t => jobj [("tree", jarr (t.map renderDesc)), ("orig", jnats (originalIds t)),
+    | .ok t => jobj ([("tree", jarr (t.map renderDesc)), ("orig", jnats (originalIds t)),
                      ("origq", jnats (originalIdsQ t)), ("flat", jnats (flatMemberIds t)),
                      ("wc", Json.bool wc), ("spec", optNats spec),
-                     ("loose", optNats (Spec.loose T defaultDepth ids))]
+                     ("loose", optNats (Spec.loose T defaultDepth ids)),
+                     ("fixid", Json.bool (match build T ids with
+                        | .ok t0 => (t0.map renderDesc == t.map renderDesc) | .error _ => false))]
+                    ++ (if wantLeaves then [("leaves", jarr ((leaves t).map fun d => jints (leafAttrs d)))] else []))
   pure (st, out)
 
 def opExpandRow (st : DrvState) (j : Json) : J (DrvState × Json) := do
